@@ -40,6 +40,12 @@ def table_eval(tab, zkey, io, vi):
     vi = abs(vi)
     xs = [abs(float(x)) for x in tab["io"]]
     z = [[abs(float(v)) for v in row] for row in tab[zkey]]
+    if any(b < a for a, b in zip(xs, xs[1:])):
+        # an io axis written with negative numbers is strictly increasing as written and
+        # decreasing in magnitude: the table is the same table mirrored
+        colorder = sorted(range(len(xs)), key=lambda k: xs[k])
+        xs = [xs[k] for k in colorder]
+        z = [[row[k] for k in colorder] for row in z]
     if len(tab["vi"]) == 1:
         ys = z[0]
         val = _lin(io, xs, ys)
